@@ -25,6 +25,7 @@ func checkC13(p *Prog, res *Result, tier string) {
 	res.rule("C13-R6", "each scan attempt resets the receiver; accumulating receivers implement their own reset", 3)
 	res.rule("C13-R8", "on the scan path the error of the engine iterator, of a partition worker and of the retry loop is returned (as is or wrapped) unless found nil or classified: a failed partition fails the read", 6)
 	res.rule("C13-R7", "engine partitions are clamped into the requested interval (C11-R7)", 3)
+	res.rule("C13-R9", "a partition border of the engine is advertised to clients (who stream every [border, next border) as a scan of its own) only as the first start / the last end, when it is not a version key, or re-encoded as the index key of the key it splits", 2)
 
 	recvIface := p.namedType("pkg/backend/scanner", "resultReceiver")
 	it := recvIface.Underlying().(*types.Interface)
@@ -560,6 +561,8 @@ func checkC13(p *Prog, res *Result, tier string) {
 
 	// ---- R5 ----
 	checkBorderContiguity(p, r, res, sp)
+	// ---- R9 ----
+	checkAdvertisedBorders(p, r, res, "C13-R9")
 
 	// ---- R6 ----
 	// (a) the function creating the engine iterator resets the receiver before any append
